@@ -133,6 +133,30 @@ def unit_history_sweep():
                     try: w.write_row(["1", "a"]); res.append("w")
                     except errors.DataError as e: res.append("rejected")
                 return res, ["w", "w"]
+        # a reader / writer that is merely *constructed* before another run and used after that run has finished: no row operation of one run lies inside the other
+        def early(kind):
+            from cutplace import validio, errors
+            def run(cid, other_first):
+                out = io.StringIO()
+                v = validio.Writer(cid, out) if kind.startswith("writer") else validio.Reader(cid, io.StringIO(CLEAN))
+                if other_first: list(validio.rows(cid, io.StringIO(CLEAN if kind.endswith("same") else MANY.replace("3,c", "3,b"))))
+                res = []
+                try:
+                    if kind.startswith("writer"):
+                        for row in ([] if kind == "writer_unused" else [["1", "a"], ["2", "b"]]):
+                            try: v.write_row(row); res.append("w")
+                            except errors.DataError as e: res.append("rejected:" + e.message[:30])
+                    else: res = [r for r in v.rows()]
+                    v.close(); res.append("closed")
+                except errors.DataError as e: res.append("end:" + e.message[:30])
+                return res, out.getvalue()
+            return run(interface.create_cid_from_string(CID_TEXT), True), run(interface.create_cid_from_string(CID_TEXT), False)
+        def early_check(kind):
+            got, want = early(kind)
+            return None if got == want else {"expected": "as without the other run: %r" % (want,), "observed": repr(got)}
+        extra0 = [sweep("C08/history/a reader or writer constructed before another run and used after it", ["writer_same", "writer_other", "writer_unused", "reader_same", "reader_other"], early_check, "bounded",
+                        "writer / reader created, then a complete other run on the same Cid (same keys / other keys), then the writer writes (or is closed unused) / the reader reads", describe=lambda k: {"shape": k},
+                        function="validio.Writer.__init__ / Reader on one Cid", unit="C08.history", props=["C08", "C05", "C14"])]
         known11 = findings.is_known("K-11", "C08"); k11 = []
         def overlap_check(kind):
             got, want = overlap(kind)
@@ -146,7 +170,7 @@ def unit_history_sweep():
             kind, got, want = k11[0]
             extra.append(Result("C08/K-11 witness: runs overlapping on one CID object share the state of its checks (%s)" % ", ".join(k[0] for k in k11), "bounded", FAILED, "native", finding="K-11", cases=len(k11), props=["C08", "C05", "C14"],
                                 detail=repr(got)[:300], replay={"verdict": "confirmed", "input": {"shape": kind}, "expected": repr(want), "observed": repr(got)}))
-        return extra + [pinned] + [sweep("C08/history/every run equals the same run on a fresh CID", cases(), check, "bounded",
+        return extra0 + extra + [pinned] + [sweep("C08/history/every run equals the same run on a fresh CID", cases(), check, "bounded",
                       "all sequences of 1-3 operations and every 9th sequence of 4 (all of them + 2000 random sequences of 5-9 in thorough) over %s on one CID object with IsUnique and DistinctCount checks (delimited; sequences of 1-2 also on a fixed-format CID)" % OPS,
                       describe=lambda s: {"operations": list(s)}, function="validio.rows / Reader / Writer on one Cid", unit="C08.history")]
     return NativeUnit("C08.history", "bounded exploration of operation histories on one CID object", ["C08"], run, kind="bounded")
